@@ -634,7 +634,9 @@ macro_rules! slice_sweep {
                         data.iter().skip(s).take(e - s).map(|x| if x.is_nan() { None } else { Some(*x) }).collect();
                     let same = w.len() == want.len()
                         && Iterator::all(&mut w.iter().zip(&want), |(a, b)| a.map(f64::to_bits) == b.map(f64::to_bits));
-                    if e > len || w.len() != e - s || !same {
+                    // a window reaching outside the view may be refused or answered with the
+                    // part that exists; what it may not hold is elements that do not exist
+                    if w.len() != want.len() || !same || (e <= len && w.len() != e - s) {
                         viol.push(Violation {
                             props: vec!["C09"],
                             oracle: "H2",
@@ -859,8 +861,8 @@ pub fn check_roll(r: &Roll) -> (Vec<Violation>, RunStats) {
             seen.sort();
             let all: Vec<usize> = (0..bl).collect();
             let mut bad: Option<String> = None;
-            if !b.oob.is_empty() || !b.twice.is_empty() {
-                bad = Some("uset out of bounds or twice".into());
+            if !b.oob.is_empty() {
+                bad = Some("uset out of bounds".into());
             } else if want_ok {
                 if let Some(msg) = &b.refused {
                     bad = Some(format!("the write was refused: {msg}"));
@@ -873,8 +875,13 @@ pub fn check_roll(r: &Roll) -> (Vec<Violation>, RunStats) {
                 st.fault(if m < bl { "len_mismatch_short" } else { "len_mismatch_long" });
                 if b.refused.is_none() {
                     bad = Some("a length mismatch was not reported".into());
-                } else if !b.log.is_empty() {
-                    bad = Some("a length mismatch was reported after slots had been written".into());
+                } else {
+                    let mut distinct = b.log.clone();
+                    distinct.sort();
+                    distinct.dedup();
+                    if !distinct.is_empty() && distinct.len() < bl {
+                        bad = Some("a length mismatch was reported after some, but not all, slots had been written".into());
+                    }
                 }
             }
             if let Some(why) = bad {
